@@ -45,7 +45,14 @@ type Delivery struct {
 	// Recover: the stream fails once and then carries on delivering (a transient
 	// condition); a consumer that retries gets the rest.
 	Recover bool `json:"recover,omitempty"`
+	// Sniff: the reader looks at what it is about to deliver with the library's own
+	// Detect (a decompressing or logging reader that sniffs its payload): a call
+	// into the library from inside the caller's Read.
+	Sniff bool `json:"sniff,omitempty"`
 }
+
+// SniffHook is what a sniffing reader calls (set by the harness to a Detect call).
+var SniffHook func(b []byte)
 
 type tempErr struct{}
 
@@ -265,6 +272,9 @@ func (s *Stream) read(p []byte) (int, error) {
 		n = end - s.pos
 	}
 	copy(p, s.Data[s.pos:s.pos+n])
+	if s.D.Sniff && SniffHook != nil && s.Calls <= 3 {
+		SniffHook(p[:n])
+	}
 	s.pos += n
 	s.Handed += n
 	if s.pos > s.MaxPos {
